@@ -42,8 +42,10 @@ MANIFEST_TEXT.update({
         "level": "Bounded model checking over all item sequences <= 4 (thorough 6), all stop positions, three sinks and four "
                  "drivers, and CIterator pull/drop/continue interleavings with drop-counted items: invocation count, order, "
                  "reported count, exactly-once ownership.",
-        "note": "Trusts Kani/CBMC; sequences beyond the bound and panicking closures are outside.",
-        "technique": BMC,
+        "note": "Trusts Kani/CBMC; sequences beyond the bound and panicking closures are outside. Non-fused sources, borrowed "
+                "sources and the provided Iterator methods are included; the C helper snippets of the emitted header (buffer "
+                "iterator, static collect callback) are decided by CBMC on the C text the real cglue-bindgen emits.",
+        "technique": BMC + "; auxiliary CBMC run on the emitted C helper snippets (gcc replay)",
     },
     "C19": {
         "level": "Bounded model checking of all clone/wake/wake_by_ref/drop histories on enumerated derivation skeletons of <= 3 "
@@ -72,8 +74,11 @@ MANIFEST_TEXT.update({
         "level": "Bounded model checking: real values with symbolic contents are reinterpreted as C-view structs (generated from the "
                  "published header where it declares the type) and driven purely through fields and function pointers; effects "
                  "(drop counters, strong counts, contents, capacities, tags) must equal the Rust operation's.",
-        "note": "Dev-profile layout only; C++ header and C snippets not covered here.",
-        "technique": BMC + "; C-view reinterpretation against the published header",
+        "note": "Dev-profile layout only; the C++ header is not covered. The view harnesses are run a second time under "
+                "-Zrandomize-layout (seed from VERIF_SEED); the emitted C *_drop helpers are decided by CBMC on the C text the real "
+                "cglue-bindgen emits.",
+        "technique": BMC + "; C-view reinterpretation against the published header; second build with randomized repr(Rust) layouts; "
+                           "auxiliary CBMC run on the emitted C drop helpers (gcc replay)",
     },
     "C05": {
         "level": "Narrowed claim, bounded model checking of a two-role model: plugin-fabricated values over non-heap memory with the "
